@@ -34,10 +34,17 @@ pub struct Root {
 
 #[derive(Serialize, Deserialize, Clone, Debug)]
 pub struct Stage {
-    pub k: String, // "map" | "then_req"
+    pub k: String, // "map" | "then_req" | "then_stream"
     pub f: String,
     #[serde(default)]
     pub tag: u32,
+    /// then_stream only: the inner stream continues with then_request(itag) unless 0
+    #[serde(default, skip_serializing_if = "is_zero")]
+    pub itag: u32,
+}
+
+fn is_zero(v: &u32) -> bool {
+    *v == 0
 }
 
 #[derive(Serialize, Deserialize, Clone, Debug)]
@@ -230,44 +237,52 @@ impl Builder {
             move || [inst, tid, ctr.fetch_add(1, Ordering::SeqCst)]
         };
         let sink_tag = sink.tag;
-        if root.k == "req" {
-            let mut rb: RB = erase_r(Command::request_from_shell(VOp {
-                o: stamp(),
-                tag: root.tag,
-                val: root.val,
-            }));
-            for st in stages {
-                let f = st.f.clone();
-                rb = if st.k == "map" {
-                    erase_r(rb.map(move |x| apply_f(&f, x)))
-                } else {
-                    let stamp = stamp.clone();
-                    let tag = st.tag;
-                    erase_r(rb.then_request(move |x| {
-                        Command::request_from_shell(VOp { o: stamp(), tag, val: apply_f(&f, x) })
-                    }))
-                };
-            }
-            rb.then_send(move |x| Event::Em { o: stamp(), tag: sink_tag, val: x })
+        enum B {
+            R(RB),
+            S(SB),
+        }
+        let first = VOp { o: stamp(), tag: root.tag, val: root.val };
+        let mut b = if root.k == "req" {
+            B::R(erase_r(Command::request_from_shell(first)))
         } else {
-            let mut sb: SB = erase_s(Command::stream_from_shell(VOp {
-                o: stamp(),
-                tag: root.tag,
-                val: root.val,
-            }));
-            for st in stages {
-                let f = st.f.clone();
-                sb = if st.k == "map" {
-                    erase_s(sb.map(move |x| apply_f(&f, x)))
-                } else {
-                    let stamp = stamp.clone();
-                    let tag = st.tag;
-                    erase_s(sb.then_request(move |x| {
-                        Command::request_from_shell(VOp { o: stamp(), tag, val: apply_f(&f, x) })
-                    }))
-                };
-            }
-            sb.then_send(move |x| Event::Em { o: stamp(), tag: sink_tag, val: x })
+            B::S(erase_s(Command::stream_from_shell(first)))
+        };
+        for st in stages {
+            let f = st.f.clone();
+            let stamp = stamp.clone();
+            let (tag, itag) = (st.tag, st.itag);
+            // the stream a then_stream stage opens for every item it is fed
+            let inner = {
+                let stamp = stamp.clone();
+                let f = f.clone();
+                move |x: u32| -> SB {
+                    let s = Command::stream_from_shell(VOp { o: stamp(), tag, val: apply_f(&f, x) });
+                    if itag == 0 {
+                        erase_s(s)
+                    } else {
+                        let stamp = stamp.clone();
+                        erase_s(s.then_request(move |y| {
+                            Command::request_from_shell(VOp { o: stamp(), tag: itag, val: y })
+                        }))
+                    }
+                }
+            };
+            b = match (b, st.k.as_str()) {
+                (B::R(rb), "map") => B::R(erase_r(rb.map(move |x| apply_f(&f, x)))),
+                (B::R(rb), "then_stream") => B::S(erase_s(rb.then_stream(inner))),
+                (B::R(rb), _) => B::R(erase_r(rb.then_request(move |x| {
+                    Command::request_from_shell(VOp { o: stamp(), tag, val: apply_f(&f, x) })
+                }))),
+                (B::S(sb), "map") => B::S(erase_s(sb.map(move |x| apply_f(&f, x)))),
+                (B::S(sb), "then_stream") => B::S(erase_s(sb.then_stream(inner))),
+                (B::S(sb), _) => B::S(erase_s(sb.then_request(move |x| {
+                    Command::request_from_shell(VOp { o: stamp(), tag, val: apply_f(&f, x) })
+                }))),
+            };
+        }
+        match b {
+            B::R(rb) => rb.then_send(move |x| Event::Em { o: stamp(), tag: sink_tag, val: x }),
+            B::S(sb) => sb.then_send(move |x| Event::Em { o: stamp(), tag: sink_tag, val: x }),
         }
     }
 }
